@@ -169,6 +169,7 @@ def process_states(texts):
     wfilter = opts.get('wfilter', 'always')
     res = Result()
     seed = opts.get('seed', 0)
+    touch_before = any(getattr(m, 'touch_before', False) for m in monitors)
     for text in texts:
         res.states += 1
         view = tree.RoView(text)
@@ -180,7 +181,7 @@ def process_states(texts):
                     res.add_finding(prop, sig, detail, ctx)
         for case in h.menu(view, res):
             msg = h.render(case, view)
-            obs, ro, mobj = target.step(ns, text, msg, wfilter)
+            obs, ro, mobj = target.step(ns, text, msg, wfilter, touch_before)
             ctx = Ctx(ns, h, text, view, case, msg, obs)
             ctx.ro_obj, ctx.msg_obj = ro, mobj
             res.transitions += 1
